@@ -43,6 +43,7 @@ def _(fp: "file", needle: "bytes", start_offset: "opt[int]", max_offset: "int"):
     """all-mode generator contract: the ghost sequence `yielded` is the list of reported offsets.
     s = the offset the search starts from; F = the file content; the read-buffer size
     io.DEFAULT_BUFFER_SIZE is a symbolic constant >= 1."""
+    modifies(fp)
     requires(len(needle) >= 1, max_offset >= 0)
     requires(implies(start_offset is not None, start_offset >= 0))
     yields("int")
@@ -112,6 +113,7 @@ def _(fp: "file", needle: "bytes", start_offset: "opt[int]", max_offset: "int"):
 def _(fobj: "file", start_offset: "opt[int]", maxrange: "opt[int]"):
     """yields exactly the offsets in the scanned range whose header satisfies the self-referential
     check, ascending, each with size / key / hints / decoded payload from the stated offsets."""
+    modifies(fobj)
     requires(implies(start_offset is not None, start_offset >= 0))
     yields("record[ArtifactKitPayload]")
     terminates()
